@@ -195,6 +195,9 @@ func (e *Exec) redirect(fn *ssa.Function) *ssa.Function {
 	if !ok || fn.Pkg == nil {
 		return nil
 	}
+	if e.realDial && strings.HasSuffix(fnName(fn), "knxnet.DialTunnelUDP") || e.realDial && strings.HasSuffix(fnName(fn), "knxnet.DialTunnelTCP") {
+		return nil
+	}
 	if i := strings.LastIndex(to, "."); i >= 0 {
 		if p := e.World.Pkgs[to[:i]]; p != nil {
 			return p.Func(to[i+1:])
